@@ -254,6 +254,8 @@ def handleCli (toks : List String) : String :=
 def handle (toks : List String) : String :=
   match toks with
   | "srv" :: rest => SA.DnsServer.handle rest
+  -- the same line over a real socket (udp / tcp) to a real miekg server started by the real communicator
+  | "net" :: _ :: rest => SA.DnsServer.handle rest
   | "cli" :: rest => handleCli rest
   -- `dec|enc <code> …`: the real codec on one input / a swept range.  The codecs are parameters of the models and the
   -- theorems assume `Codec.Total`, so the model's answer is the hypothesis itself: the call returns.
